@@ -18,7 +18,7 @@ pub fn property() -> Property {
     Property {
         id: "C16",
         level: "exploration",
-        rule: "Random operation sequences (<= 25 ops, values from small domains so that collisions are frequent) over {new session, clone session, every session setter, header/header_append with colliding names in mixed case, create a builder with each method, every builder setter, headers_mut, prepare, send} are executed in lock-step on the real objects and on a value model in which a builder copies its session's values at creation and nothing flows back or sideways. Header values include obs-text that is not UTF-8 and non-ASCII UTF-8. After EVERY operation the guarded settings snapshot (hook H4) of EVERY live session/builder must equal its model; every send is observed on the wire with one probe: header probe (all header fields sent vs model incl. Accept/User-Agent defaults and Accept-Encoding iff compression allowed), redirect probe (endless 302: number of requests == max_redirections+1, or 1 when following is off), (every third header probe is preceded by a send of an unrelated session that fails while its request is being written: nothing of it may appear on the probed request's connection), header-limit probe (exactly max_headers fields accepted, max_headers+1 refused), proxy probe (address dialled), plus the timeouts / TLS flags / root count handed to the connector (DialRequest). 'env-at-creation': the proxy variables are changed between the creation of a session / request / PreparedRequest and its send (3 x 3 environments x 7 kinds of object, Session::default() among them): the route is the one of the environment at creation. A set/append that is refused (line break in the value) leaves the session unchanged. In the threads generator the objects are then distributed over 2..8 barrier-started threads that keep operating on their own clones and sending concurrently; each thread checks its objects against its own copy of the model and the parent checks that the originals did not change. Non-trivial: sequence contains >= 1 send and >= 2 live objects; distinct = hash(op sequence).",
+        rule: "Random operation sequences (<= 25 ops, values from small domains so that collisions are frequent) over {new session, clone session, every session setter, header/header_append with colliding names in mixed case, create a builder with each method, every builder setter, headers_mut, prepare, send} are executed in lock-step on the real objects and on a value model in which a builder copies its session's values at creation and nothing flows back or sideways. Header values include obs-text that is not UTF-8 and non-ASCII UTF-8. bearer_auth / basic_auth on live requests (set semantics). After EVERY operation the guarded settings snapshot (hook H4) of EVERY live session/builder must equal its model; every send is observed on the wire with one probe: header probe (all header fields sent vs model incl. Accept/User-Agent defaults and Accept-Encoding iff compression allowed), redirect probe (endless 302: number of requests == max_redirections+1, or 1 when following is off), (every third header probe is preceded by a send of an unrelated session that fails while its request is being written: nothing of it may appear on the probed request's connection), header-limit probe (exactly max_headers fields accepted, max_headers+1 refused), proxy probe (address dialled), plus the timeouts / TLS flags / root count handed to the connector (DialRequest). 'env-at-creation': the proxy variables are changed between the creation of a session / request / PreparedRequest and its send (3 x 3 environments x 7 kinds of object, Session::default() among them): the route is the one of the environment at creation. A set/append that is refused (line break in the value) leaves the session unchanged; bearer_auth / basic_auth on a request SET its Authorization field (sessions carry Authorization defaults too). In the threads generator the objects are then distributed over 2..8 barrier-started threads that keep operating on their own clones and sending concurrently; each thread checks its objects against its own copy of the model and the parent checks that the originals did not change. Non-trivial: sequence contains >= 1 send and >= 2 live objects; distinct = hash(op sequence).",
         assumptions: &["root certificates are counted, not compared", "thread schedules are whatever the OS produces (Miri adds randomised schedules in the thorough tier when available)"],
         min_nontrivial: |t| t.pick(2_000, 60_000),
         gens,
@@ -91,7 +91,7 @@ enum Setter {
 fn random_setter(rng: &mut Rng) -> Setter {
     let name = || -> &'static str { "" };
     let _ = name;
-    let names = ["X-A", "x-a", "X-a", "X-B", "Accept", "User-Agent", "accept", "Cookie", "Accept-Encoding", "accept-encoding"];
+    let names = ["X-A", "x-a", "X-a", "X-B", "Accept", "User-Agent", "accept", "Cookie", "Accept-Encoding", "accept-encoding", "Authorization"];
     // (a field value is an opaque byte string: obs-text that is not UTF-8 and non-ASCII UTF-8 included)
     let values: [&[u8]; 7] = [b"1", b"2", b"3", b"v v", b"", b"caf\xe9 \xfc", "\u{20ac}".as_bytes()];
     match rng.below(16) {
@@ -442,6 +442,22 @@ fn run_ops(state: &mut State, rng: &mut Rng, nops: usize, out: &mut Vec<(String,
                 let j = *rng.pick(&live);
                 let ro = &mut state.reqs[j];
                 if rng.chance(1, 8) {
+                    // the authentication helpers SET the Authorization field of that request: whatever
+                    // the session (or an earlier call) had put there is replaced, not joined
+                    let rb = ro.rb.take().unwrap();
+                    let value = if rng.bool() {
+                        let tok = *rng.pick(&["tok-1", "tok-2"]);
+                        ro.rb = Some(rb.bearer_auth(tok));
+                        state.log.push(format!("r{j}.bearer_auth({tok})"));
+                        format!("Bearer {tok}")
+                    } else {
+                        ro.rb = Some(rb.basic_auth("user", Some("pw")));
+                        state.log.push(format!("r{j}.basic_auth(user, pw)"));
+                        format!("Basic {}", c07::base64_encode(b"user:pw"))
+                    };
+                    ro.headers.insert("authorization".into(), vec![value.into_bytes()]);
+                    counters.push("op_auth_helper");
+                } else if rng.chance(1, 8) {
                     // headers_mut: remove one name
                     let name = *rng.pick(&["x-a", "x-b", "accept"]);
                     ro.rb.as_mut().unwrap().headers_mut().remove(name);
